@@ -232,7 +232,7 @@ func genC05Core(g *Gen, tier string, idx int) *wire.Scenario {
 	}
 	// argument keys are plain ASCII here
 	for i := range sc.Script {
-		if sc.Script[i].Cmd == "arg-key" || sc.Script[i].Cmd == "raw-byte" {
+		if sc.Script[i].Cmd == "arg-key" || strings.HasPrefix(sc.Script[i].Cmd, "raw-") {
 			sc.Script[i].B = wire.Bytes(string(Pick(g, []rune("abcdxe ("))))
 		}
 	}
